@@ -3,7 +3,8 @@
 import ast
 
 from ..engine import rule
-from ..flow import PRUNE, Violation, explore, path_ends, path_is, \
+from ..flow import PRUNE, Violation, cmp_sides, explore, implied_atoms, \
+    path_ends, path_is, \
     prov_has, provenance, raising_node, store_value, strip_not, truth_test
 from ..locks import lock_delta
 from ..model import dotted, walk_local
@@ -613,3 +614,61 @@ def r8(R):
     for v in vs:
         R.violation((f.module.relpath, f.qualname, 'dependency recorded'),
                     v.message, g, v.path)
+
+
+# ------------------------------------------------------------------ C03.R9
+@rule('C03.R9', 'a read dependency is accepted only after the committed '
+      'revision id of the object was obtained and found EQUAL to the one '
+      'read; anything else raises', min_instances=1)
+def r9(R):
+    n = 0
+    for f in R.prog.all_functions():
+        if f.name != 'checkCurrentSerialInTransaction' or \
+                f.module.name.endswith('interfaces'):
+            continue
+        ps = [p for p in f.params if p != 'self']
+        if len(ps) < 3:
+            continue
+        # pure delegation (adapter): the callee is checked instead
+        body = [s_ for s_ in f.node.body if not (isinstance(
+            s_, ast.Expr) and isinstance(s_.value, ast.Constant))]
+        if len(body) == 1 and isinstance(body[0], (ast.Return, ast.Expr)) \
+                and isinstance(body[0].value, ast.Call) and dotted(
+                    body[0].value.func) and dotted(
+                        body[0].value.func)[-1] == f.name:
+            continue
+        n += 1
+        serial = ps[1]
+        g, b, F = R.cfg(f, f.cls, max_depth=0)
+        R.instance('%s' % f.qualname)
+
+        def edge(node, st, lab, tgt, serial=serial, F=F):
+            if node.kind == 'test' and lab in ('T', 'F'):
+                for e, truth in implied_atoms(node.ast, lab):
+                    for l, op, r in cmp_sides(e):
+                        if isinstance(r, ast.Name) and r.id == serial and \
+                                op in (ast.Eq, ast.NotEq):
+                            pv = provenance(l, node.frame, F)
+                            if prov_has(pv, 'call', lambda p: p[-1] in (
+                                    'getTid', 'load', 'loadBefore',
+                                    'lastTid', '_lookup_pos')):
+                                if (op is ast.Eq) == truth:
+                                    return 'equal'
+            return st
+
+        def at(node, st, g=g):
+            if node.id == g.exit_return and st != 'equal':
+                return Violation(
+                    'checkCurrentSerialInTransaction can return normally '
+                    'without having found the committed revision id equal '
+                    'to the serial the transaction read (for instance when '
+                    'the object has vanished): the commit goes through '
+                    'although what it read is no longer current')
+            return st
+
+        vs, stats = explore(g, 'start', at=at, edge=edge)
+        R.count(stats)
+        for v in vs:
+            R.violation(v.node, v.message, g, v.path)
+    R.require(n >= 1, 'no checkCurrentSerialInTransaction implementation '
+              'found')
